@@ -32,8 +32,9 @@ DELEGATED = [
     ("rsplit", ("-",)), ("rsplit", ()), ("rsplit", (None, 1)), ("rsplit", ("a", 1)),
 ]
 
-SPLIT_SEPS = ("-", "a", "--", "aB", " ", "x", "\n")
-SPLIT_RES = ("-+", "[aB]", r"\s", r"a|-")
+# the last four of each list are the SAME strings, used once as a literal separator and once as a pattern
+SPLIT_SEPS = ("-", "a", "--", "aB", " ", "x", "\n", "a|-", ".", "-+", "[aB]")
+SPLIT_RES = ("-+", "[aB]", r"\s", r"a|-", ".", "a", "-", "(?:a)|B")
 
 
 def resolve(args, n):
@@ -282,6 +283,16 @@ def shard(args):
             i += 1
     if idx == 0:
         for t in CR_TEXTS:
+            for spec in C.cuts(t, max_runs=2):
+                check_value(acc, spec, thorough)
+    # every character of Latin-1 (and the neighbours of U+2028/U+2029) as a would-be line boundary: str.splitlines breaks on exactly
+    # \n \r \x0b \x0c \x1c \x1d \x1e \x85 U+2028 U+2029 - and on nothing next to them
+    cps = [c for c in list(range(0, 0x100)) + [0x2027, 0x2028, 0x2029, 0x202A] if c not in (0x1B, 0x9B)]
+    for k, cp in enumerate(cps):
+        if k % nshards != idx:
+            continue
+        ch = chr(cp)
+        for t in ("a" + ch + "B", ch + "a", "a" + ch, "a" + ch + ch + "B", "a" + ch + "\nB" + ch):
             for spec in C.cuts(t, max_runs=2):
                 check_value(acc, spec, thorough)
     for si, spec in enumerate(C.exotic_specs() + C.huge_specs() + C.scale_specs(thorough)[::3]):
